@@ -16,6 +16,8 @@
  R4 VOA             : set_amplifier_voa adds the same optimised voa to delta_p and effective_gain, only when out_voa is
                       unset and power mode with out_voa_auto:
                         voa = max(round2float(min(p_max - power_target, gain_flatmax - gain), step) - margin, 0).
+ R6 span loss       : span_loss = (own loss if passive + losses of all fused predecessors and successors) - Raman gain
+                      estimated for the same elements, cached in design_span_loss.
  R5 chaining        : in set_egress_amplifier the (dp, voa) returned for one amplifier are what the next one receives as
                       (prev_dp, prev_voa); the walk starts from the ROADM/transceiver output target.
 """
@@ -335,4 +337,46 @@ def r5_chaining(ctx):
     ctx.need('R5.chaining', 8)
 
 
-RULES = [('R1.budget', r1_budget), ('R2.rule', r2_rule), ('R3.saturation', r3_saturation), ('R4.voa', r4_voa), ('R5.chaining', r5_chaining)]
+def spec_in(ev, func, text, env):
+    """evaluate a specification expression through the same front end, in the name space of func"""
+    from ..vg import State
+    return ev.ev(ast.parse(text, mode='eval').body, State(dict(env)))
+
+
+def r6_span_loss(ctx):
+    """the loss an amplifier has to compensate is the loss of the WHOLE fused chain of passive elements around the node
+    (the node itself when passive, everything before it and after it up to the neighbouring amplifiers / ROADMs) minus the
+    Raman gain estimated for the same elements"""
+    repo = ctx.repo
+    f = repo.func(NW, 'span_loss')
+    ev = Evaluator(repo, f, no_inline={'estimate_raman_gain', 'prev_node_generator', 'next_node_generator'}).run_function()
+    r = ev.ret()
+    conds = [c for c in gamma_conds(r) if c.startswith('hasattr(')]
+    s = site(f)
+    ok = len(conds) == 1 and 'design_span_loss' in conds[0]
+    ctx.check('R6.span-loss', f'{s} cache', ok and restrict(r, {conds[0]: True}).eq(fld('node.design_span_loss')), key(f, 'cache'),
+              'span_loss does not return the cached design value when there is one')
+    if not ok:
+        return
+    val = restrict(r, {conds[0]: False})
+    env = {p: Rat.sym(p) for p in f.params}
+    e2 = Evaluator(repo, f, no_inline={'estimate_raman_gain', 'prev_node_generator', 'next_node_generator'})
+    want = spec_in(e2, f, '(node.loss if node.passive else 0)'
+                   ' + sum(n.loss for n in prev_node_generator(network, node)) + sum(n.loss for n in next_node_generator(network, node))'
+                   ' - estimate_raman_gain(node, equipment, input_power)'
+                   ' - sum(estimate_raman_gain(n, equipment, input_power) for n in prev_node_generator(network, node))'
+                   ' - sum(estimate_raman_gain(n, equipment, input_power) for n in next_node_generator(network, node))', env)
+    ctx.check('R6.span-loss', f'{s} whole chain', isinstance(val, Rat) and val.eq(want), key(f, 'chain'),
+              'span_loss is not (own loss if passive + losses of all fused predecessors and successors) - (Raman gain of the same '
+              'elements): the gain budget would miss or double a part of the span', f'got {vkey(val)[:300]}')
+    pg = repo.func(NW, 'prev_node_generator')
+    ng = repo.func(NW, 'next_node_generator')
+    for g_, word in ((pg, 'predecessors'), (ng, 'successors')):
+        t = ast.unparse(g_.node)
+        ok = word in t and 'yield' in t and 'elements.Fused' in t and 'elements.Fiber' in t
+        ctx.check('R6.span-loss', f'{site(g_)} chain walk', ok, key(g_, 'walk'),
+                  f'{g_.name} does not walk the {word} while they are fibres or fused elements')
+    ctx.need('R6.span-loss', 4)
+
+
+RULES = [('R6.span-loss', r6_span_loss), ('R1.budget', r1_budget), ('R2.rule', r2_rule), ('R3.saturation', r3_saturation), ('R4.voa', r4_voa), ('R5.chaining', r5_chaining)]
